@@ -1,5 +1,5 @@
 (* Proofs/PanicProofs.v — lemmas about Model/Panic.v (C11). *)
-From Coq Require Import String List Bool Arith Lia.
+From Coq Require Import String List Bool Arith NArith Lia.
 From HV Require Import Gen.RecoverTable Model.Panic.
 Import ListNotations.
 Open Scope string_scope.
@@ -131,7 +131,7 @@ Proof.
   - intros H. inversion H; subst. destruct t2, s2, p2, f2; reflexivity.
 Qed.
 
-Lemma all_cells_length : length all_cells = (7 * 2 * 2 * 13)%nat.
+Lemma all_cells_length : length all_cells = (7 * 2 * 2 * 14)%nat.
 Proof. vm_compute. reflexivity. Qed.
 
 Lemma all_cells_complete : forall c : cell, In c all_cells.
@@ -180,7 +180,7 @@ Proof. vm_compute. reflexivity. Qed.
 (* panics of the service function, of invoke plugins and of the missing-method handler are stopped by
    Service.Process' own closure: they never unwind through the IO plugins or the transport handler *)
 Definition invoke_level (f : fault) : bool :=
-  match f with FServicePanic | FInvokePluginPanic | FMissingPanic => true | _ => false end.
+  match f with FServicePanic | FHostilePanic | FInvokePluginPanic | FMissingPanic => true | _ => false end.
 
 Definition is_call_error (v : verdict) : bool := match v with CallError => true | _ => false end.
 
@@ -243,4 +243,47 @@ Lemma goroutine_entries_refuted : forall g, In g unprotected_goroutines ->
 Proof.
   intros g Hin. destruct goroutine_entries_b as [_ H]. rewrite forallb_forall in H.
   specialize (H g Hin). apply andb_true_iff in H. destruct H as [H1 H2]. apply negb_true_iff in H2. split; assumption.
+Qed.
+
+(* ---------------------------------------------------------------- formatting the recovered value *)
+
+Lemma format_shielded_ok : format_shielded table = true.
+Proof. vm_compute. reflexivity. Qed.
+
+(* where the formatting runs, and what a panic there would do: the table shows no recover of
+   Service.Handle (resp. Provider.process) around it *)
+Lemma format_phase_unprotected :
+  (forall g, format_phase (mk TMock Server false FHostilePanic) = Some g -> panic_verdict table g = ProcessDies) /\
+  (forall g, format_phase (mk TFastHttp Server false FHostilePanic) = Some g -> panic_verdict table g = ProcessDies) /\
+  (forall g, format_phase (mk TTcp Server false FHostilePanic) = Some g -> panic_verdict table g = ConnClosed) /\
+  (forall g, format_phase (mk TTcp Client false FHostilePanic) = Some g -> panic_verdict table g = ProcessDies).
+Proof.
+  repeat split; intros g H; cbn in H; injection H as H; subst g; vm_compute; reflexivity.
+Qed.
+
+(* hence: the containment of hostile values rests on the shielding and on nothing else *)
+Lemma hostile_rests_on_shielding : forall t c g1 g2,
+  behaviour_of c = Panics g1 -> format_phase c = Some g2 ->
+  contained (panic_verdict t g1) = true ->
+  verdict_of t c = if format_shielded t then panic_verdict t g1 else panic_verdict t g2.
+Proof.
+  intros t c g1 g2 H1 H2 Hc. unfold verdict_of. rewrite H1, H2, Hc.
+  destruct (format_shielded t); reflexivity.
+Qed.
+
+(* ---------------------------------------------------------------- teardown order, limits *)
+
+Lemma teardown_order_ok : forallb (teardown_unregisters_first table) mux_packages = true.
+Proof. vm_compute. reflexivity. Qed.
+
+Lemma during_teardown_all : forall c : cell, during_teardown_ok table c = true.
+Proof.
+  intros c. unfold during_teardown_ok. destruct (has_pool (c_tr c)) eqn:E; [|reflexivity].
+  pose proof teardown_order_ok as H. rewrite forallb_forall in H. apply H.
+  destruct (c_tr c); try discriminate; cbn; auto.
+Qed.
+
+Lemma udp_limit : udp_max_body = 65499%N /\ forall n, refused udp_max_body n = true <-> (65499 < n)%N.
+Proof.
+  split; [reflexivity|]. intros n. unfold refused. rewrite N.ltb_lt. change udp_max_body with 65499%N. reflexivity.
 Qed.
